@@ -632,7 +632,7 @@ func memoKeyRule(c *Ctx, r *Result, rule string) {
 		})
 	}
 	if n < 1 {
-		r.Errorf(rule+": no map-valued cache or registry update found in package hdf5")
+		r.Errorf(rule + ": no map-valued cache or registry update found in package hdf5")
 	}
 	r.Floor(rule, 1)
 }
